@@ -52,6 +52,22 @@ func fzSystematic() (always, rest []*fzCase) {
 			}
 		}
 	}
+	// additional parameters of every type kind, used by ":map $2 X" (valid or not, never a crash)
+	for i, pt := range []string{"error", "*error", "interface{}", "func()", "chan int", "map[string]int", "[]error", "struct{ X int }", "...int", "[2]int", "LErrish", "*SA", "**SA", "ext.Errish", "unsafe.Pointer", "*int"} {
+		for j, note := range []string{"// :map $2 Extra", "// :map $2 Name", "// :map $2.X Extra", "// :preprocess preADX", ""} {
+			c := &fzCase{tsig: inj("(s *SA, p " + pt + ") *DA")}
+			if note != "" {
+				c.tdoc = []string{note}
+			}
+			if pt == "unsafe.Pointer" {
+				c.imports = []string{`"unsafe"`}
+			}
+			c.class = fmt.Sprintf("sys/extra-param-%d/note%d", i, j)
+			c.group = "sys/extra-param"
+			c.positioned = false
+			always = append(always, c)
+		}
+	}
 	// a converter interface that EMBEDS a valid interface while one of its own methods is faulty: the
 	// faulty method must not be dropped silently
 	base := "type Base interface {\n\tBaseM(*SB) *DB\n}"
